@@ -1,8 +1,170 @@
-(** Property C07 - placeholder while the proofs are being written. *)
-From Coq Require Import ZArith List String.
-From LV Require Import Base.Conc Base.Events Model.Vyukov.
+(** Property C07 — "Every concurrent history on VyukovMPMCCycleQueue (value and intrusive variants) is
+    linearizable to a FIFO queue with the configured capacity.  Enqueue fails only if capacity items are present
+    at some instant during the call, and dequeue fails only if the queue is empty at some instant.  The
+    single-consumer front()/pop_front() pair returns and removes the oldest item."
+
+    Only statements here; proofs live in LV.Proofs.Vyukov*.  Model: LV.Model.Vyukov (one step per atomic access of
+    cds/container/vyukov_mpmc_cycle_queue.h; the intrusive queue is the same code at T = pointer).
+
+    Common hypotheses of every theorem:
+      k >= 1, capacity 2^k                      any power-of-two capacity >= 2 (item counter on or off: any [q])
+      programs_allowed sc mp ths                 dequeue / pop_front only by the consumer thread when sc = Some tc,
+                                                 front only when sc = Some t; mp = true: no front / pop_front at all
+      Conc.reach (init_cfg q fuel ths) c         c is reachable by ANY sequence of thread choices (any number of
+                                                 threads, any client programs, any schedule, any loop fuel)
+      claims_bound k (trace c)                   #successful CAS on m_posEnqueue so far + 2^k < 2^62: the position
+                                                 counters do not wrap (the bound on the number of operations)
+    [hist capn tr] / [hist_b capn tr] is the history (invocations / responses with their values) read off the
+    client events of the trace; [cell p] = p mod 2^k = p & m_nBufferMask. *)
+From Coq Require Import ZArith List Bool.
+From LV Require Import Base.Conc Base.Events Base.Lin Spec.Specs Model.Vyukov
+                       Proofs.VyukovSpec Proofs.VyukovArith Proofs.VyukovCore Proofs.VyukovLin Proofs.VyukovTheorems.
 Import ListNotations.
 Local Open Scope Z_scope.
-Example C07_model_runs :
-  snd (Vyukov.run_case [2;0;0;100] [[[1;5];[1;6];[1;7]]; [[2];[2]]] [0;0;0;1;1;0;1]%nat 1000) = true.
-Proof. vm_compute. reflexivity. Qed.
+
+(** posDeq <= posEnq <= posDeq + capacity, in every reachable state *)
+Theorem C07_vyukov_positions_ordered :
+  forall (k : nat) (q : qcfg) (fuel : nat) (ths : list (list op)) (sc : option nat) (mp : bool) c,
+    (1 <= k)%nat -> qcap q = 2 ^ Z.of_nat k -> programs_allowed sc mp ths ->
+    Conc.reach (init_cfg q fuel ths) c -> claims_bound k (Conc.trace c) ->
+    let g := Conc.shared c in
+    0 <= posD g /\ posD g <= posE g /\ posE g <= posD g + 2 ^ Z.of_nat k.
+Proof. intros k q fuel ths sc mp c Hk Hq Hal Hr Hb. exact (vyukov_positions_ordered k Hk q Hq fuel ths sc mp Hal c Hr Hb). Qed.
+Print Assumptions C07_vyukov_positions_ordered.
+
+(** the sequence number of a cell is determined by the phase of the position it currently serves:
+    p in [posDeq, posEnq): p+1 (published) or p (claimed by an enqueuer, not yet published);
+    p in [posEnq, posDeq+cap): p (free) or p-cap+1 (claimed by a dequeuer, not yet released) *)
+Theorem C07_vyukov_cell_phase :
+  forall (k : nat) (q : qcfg) (fuel : nat) (ths : list (list op)) (sc : option nat) (mp : bool) c,
+    (1 <= k)%nat -> qcap q = 2 ^ Z.of_nat k -> programs_allowed sc mp ths ->
+    Conc.reach (init_cfg q fuel ths) c -> claims_bound k (Conc.trace c) ->
+    let g := Conc.shared c in
+    forall p,
+      (posD g <= p < posE g -> seqs g (cell k p) = p + 1 \/ seqs g (cell k p) = p) /\
+      (posE g <= p < posD g + 2 ^ Z.of_nat k ->
+         seqs g (cell k p) = p \/ seqs g (cell k p) = p - 2 ^ Z.of_nat k + 1).
+Proof. intros k q fuel ths sc mp c Hk Hq Hal Hr Hb. exact (vyukov_cell_phase k Hk q Hq fuel ths sc mp Hal c Hr Hb). Qed.
+Print Assumptions C07_vyukov_cell_phase.
+
+(** no loss, no duplication: there is a valid LP-annotated trace for the history such that the values whose
+    enqueue took effect (in linearization order) are exactly the values dequeued (in linearization order)
+    followed by the content of the cells of [posDeq, posEnq) — published cells and cells whose enqueuer is
+    stalled between its CAS and its publish alike *)
+Theorem C07_vyukov_no_loss_no_dup :
+  forall (k : nat) (q : qcfg) (fuel : nat) (ths : list (list op)) (sc : option nat) (mp : bool) c,
+    (1 <= k)%nat -> qcap q = 2 ^ Z.of_nat k -> programs_allowed sc mp ths ->
+    Conc.reach (init_cfg q fuel ths) c -> claims_bound k (Conc.trace c) ->
+    let g := Conc.shared c in
+    exists (atr : list (aev (VQ (2 ^ k)))) (qs : list Z),
+      lp_valid (VQ (2 ^ k)) atr /\ erase atr = hist (2 ^ k) (Conc.trace c) /\
+      Z.of_nat (length qs) = posE g - posD g /\
+      (forall i, (i < length qs)%nat -> nth_error qs i = Some (datas g (cell k (posD g + Z.of_nat i)))) /\
+      fst (moved (2 ^ k) lp_init atr) = snd (moved (2 ^ k) lp_init atr) ++ qs.
+Proof. intros k q fuel ths sc mp c Hk Hq Hal Hr Hb. exact (vyukov_no_loss_no_dup k Hk q Hq fuel ths sc mp Hal c Hr Hb). Qed.
+Print Assumptions C07_vyukov_no_loss_no_dup.
+
+(** linearizability of the enqueue / dequeue interface (any number of producers and consumers) to the bounded
+    FIFO of capacity 2^k: LPs at the two position CASes and, for failures, at the load of the opposite position *)
+Theorem C07_vyukov_linearizable :
+  forall (k : nat) (q : qcfg) (fuel : nat) (ths : list (list op)) c,
+    (1 <= k)%nat -> qcap q = 2 ^ Z.of_nat k -> programs_allowed None true ths ->
+    Conc.reach (init_cfg q fuel ths) c -> claims_bound k (Conc.trace c) ->
+    (exists atr : list (aev (BFifo (2 ^ k))),
+       lp_valid (BFifo (2 ^ k)) atr /\ erase atr = hist_b (2 ^ k) (Conc.trace c)) /\
+    linearizable (BFifo (2 ^ k)) (hist_b (2 ^ k) (Conc.trace c)).
+Proof. intros k q fuel ths c Hk Hq Hal Hr Hb. exact (vyukov_linearizable k Hk q Hq fuel ths c Hal Hr Hb). Qed.
+Print Assumptions C07_vyukov_linearizable.
+
+(** single-consumer use with front() / pop_front() (and any use of the plain interface): linearizable to the
+    bounded FIFO extended with front (returns the oldest item without removing it) and pop_front (removes the
+    oldest item) *)
+Theorem C07_vyukov_linearizable_with_front :
+  forall (k : nat) (q : qcfg) (fuel : nat) (ths : list (list op)) (sc : option nat) (mp : bool) c,
+    (1 <= k)%nat -> qcap q = 2 ^ Z.of_nat k -> programs_allowed sc mp ths ->
+    Conc.reach (init_cfg q fuel ths) c -> claims_bound k (Conc.trace c) ->
+    linearizable (VQ (2 ^ k)) (hist (2 ^ k) (Conc.trace c)).
+Proof. intros k q fuel ths sc mp c Hk Hq Hal Hr Hb. exact (vyukov_linearizable_vq k Hk q Hq fuel ths sc mp Hal c Hr Hb). Qed.
+Print Assumptions C07_vyukov_linearizable_with_front.
+
+(** the property's words.  [atr] is a valid annotated trace of the history; at each linearization point [ALin t]
+    (which lies between the invocation and the response of t's operation [o]: its status is [Pending o]), with
+    [qs] the abstract queue at that instant:
+      - enqueue returns false  <->  exactly 2^k items are present at that instant;
+      - dequeue returns empty  <->  no item is present at that instant;
+      - front returns the oldest item (or none) and leaves the queue alone; pop_front removes the oldest item. *)
+Theorem C07_vyukov_fail_only_if_full_or_empty_and_front_is_oldest :
+  forall (k : nat) (q : qcfg) (fuel : nat) (ths : list (list op)) (sc : option nat) (mp : bool) c,
+    (1 <= k)%nat -> qcap q = 2 ^ Z.of_nat k -> programs_allowed sc mp ths ->
+    Conc.reach (init_cfg q fuel ths) c -> claims_bound k (Conc.trace c) ->
+    exists atr : list (aev (VQ (2 ^ k))),
+      lp_valid (VQ (2 ^ k)) atr /\ erase atr = hist (2 ^ k) (Conc.trace c) /\
+      forall pre t post qs S o,
+        atr = pre ++ @ALin (VQ (2 ^ k)) t :: post ->
+        lp_run lp_init pre = Some (qs, S) -> S t = @Pending (VQ (2 ^ k)) o ->
+        (length qs <= 2 ^ k)%nat /\
+        lp_run lp_init (pre ++ [@ALin (VQ (2 ^ k)) t]) =
+          Some (fst (vq_step (2 ^ k) qs o),
+                Lin.upd S t (@Linearized (VQ (2 ^ k)) o (snd (vq_step (2 ^ k) qs o)))) /\
+        (forall x, o = VEnq x -> (snd (vq_step (2 ^ k) qs o) = RBool false <-> length qs = (2 ^ k)%nat)) /\
+        (o = VDeq -> (snd (vq_step (2 ^ k) qs o) = RVal None <-> qs = [])) /\
+        (o = VFront -> snd (vq_step (2 ^ k) qs o) = RVal (hd_error qs) /\ fst (vq_step (2 ^ k) qs o) = qs) /\
+        (o = VPopFront -> fst (vq_step (2 ^ k) qs o) = tl qs).
+Proof. intros k q fuel ths sc mp c Hk Hq Hal Hr Hb. exact (vyukov_lin_points k Hk q Hq fuel ths sc mp Hal c Hr Hb). Qed.
+Print Assumptions C07_vyukov_fail_only_if_full_or_empty_and_front_is_oldest.
+
+(** the annotated trace ends in the concrete content of the ring, and no step of any reachable run computes an
+    overflowing signed difference (outcome UB of the model) *)
+Theorem C07_vyukov_lp_trace_matches_ring :
+  forall (k : nat) (q : qcfg) (fuel : nat) (ths : list (list op)) (sc : option nat) (mp : bool) c,
+    (1 <= k)%nat -> qcap q = 2 ^ Z.of_nat k -> programs_allowed sc mp ths ->
+    Conc.reach (init_cfg q fuel ths) c -> claims_bound k (Conc.trace c) ->
+    let g := Conc.shared c in
+    exists (atr : list (aev (VQ (2 ^ k)))) (qs : list Z) (S : nat -> status (VQ (2 ^ k))),
+      lp_run lp_init atr = Some (qs, S) /\
+      erase atr = hist (2 ^ k) (Conc.trace c) /\
+      Z.of_nat (length qs) = posE g - posD g /\
+      (forall i, (i < length qs)%nat -> nth_error qs i = Some (datas g (cell k (posD g + Z.of_nat i)))) /\
+      no_ub (Conc.trace c) = true /\
+      (mp = true -> exists atr', unemb atr = Some atr' /\ erase atr' = hist_b (2 ^ k) (Conc.trace c)).
+Proof. intros k q fuel ths sc mp c Hk Hq Hal Hr Hb. exact (vyukov_lp_trace k Hk q Hq fuel ths sc mp Hal c Hr Hb). Qed.
+Print Assumptions C07_vyukov_lp_trace_matches_ring.
+
+(** ** non-vacuity: concrete runs satisfying every hypothesis *)
+
+(** capacity 2, producer runs first: its third enqueue finds the queue full and fails; the consumer then gets
+    5 and 6 in FIFO order and a third dequeue... is not attempted.  All hypotheses of the theorems hold. *)
+Example C07_nonvacuous_mpmc :
+  let ths := [[OEnq 5; OEnq 6; OEnq 7]; [ODeq; ODeq]] in
+  let q := mkQ 2 false in
+  let c := fst (Conc.run 200 0 [0;0;0;0;0;0;0;0;0;0;0;0;0;1]%nat (init_cfg q 50 ths)) in
+  Conc.reach (init_cfg q 50 ths) c /\ qcap q = 2 ^ Z.of_nat 1 /\
+  programs_allowed None true ths /\ claims_bound 1 (Conc.trace c) /\
+  hist_b 2 (Conc.trace c) =
+    [@HInv (BFifo 2) 0%nat (Enq 5); @HRes (BFifo 2) 0%nat (RBool true);
+     @HInv (BFifo 2) 0%nat (Enq 6); @HRes (BFifo 2) 0%nat (RBool true);
+     @HInv (BFifo 2) 0%nat (Enq 7); @HRes (BFifo 2) 0%nat (RBool false);
+     @HInv (BFifo 2) 1%nat Deq; @HRes (BFifo 2) 1%nat (RVal (Some 5));
+     @HInv (BFifo 2) 1%nat Deq; @HRes (BFifo 2) 1%nat (RVal (Some 6))].
+Proof.
+  cbv zeta. split; [apply Conc.run_reach|]. split; [reflexivity|].
+  split; [apply programs_allowed_b; reflexivity|]. split; [unfold claims_bound; vm_compute; reflexivity|].
+  vm_compute. reflexivity.
+Qed.
+
+(** single consumer (thread 1) using front / pop_front while thread 0 produces; capacity 4 *)
+Example C07_nonvacuous_single_consumer :
+  let ths := [[OEnq 1; OEnq 2]; [OFront; OPop; OFront; OPop; OFront]] in
+  let q := mkQ 4 true in
+  let c := fst (Conc.run 400 0 [0;0;0;0;0;0;0;0;0;0;0;0;1]%nat (init_cfg q 50 ths)) in
+  Conc.reach (init_cfg q 50 ths) c /\ qcap q = 2 ^ Z.of_nat 2 /\
+  programs_allowed (Some 1%nat) false ths /\ claims_bound 2 (Conc.trace c) /\
+  filter (fun e : hev (VQ 4) => match e with HRes 1%nat _ => true | _ => false end) (hist 4 (Conc.trace c)) =
+    [@HRes (VQ 4) 1%nat (RVal (Some 1)); @HRes (VQ 4) 1%nat (RBool true);
+     @HRes (VQ 4) 1%nat (RVal (Some 2)); @HRes (VQ 4) 1%nat (RBool true);
+     @HRes (VQ 4) 1%nat (RVal None)].
+Proof.
+  cbv zeta. split; [apply Conc.run_reach|]. split; [reflexivity|].
+  split; [apply programs_allowed_b; reflexivity|]. split; [unfold claims_bound; vm_compute; reflexivity|].
+  vm_compute. reflexivity.
+Qed.
